@@ -43,6 +43,7 @@ type Config struct {
 	VirtualTimers     bool
 	Timed             bool // virtual clock: tick events, timers fire only when due
 	AppResetFlag      bool // the application's ToAdmin callback sets ResetSeqNumFlag=Y on every outgoing Logon
+	Flip              bool // this side is TW talking to ISLD (the mirror identity, for two-engine worlds)
 	SenderSub         string
 	TargetSub         string
 }
@@ -235,6 +236,9 @@ func (a *recApp) FromAdmin(m *quickfix.Message, _ quickfix.SessionID) quickfix.M
 }
 func (a *recApp) FromApp(m *quickfix.Message, _ quickfix.SessionID) quickfix.MessageRejectError {
 	a.hdr("FromApp", m)
+	if id, err := m.Body.GetString(11); err == nil {
+		a.w.Delivered = append(a.w.Delivered, id)
+	}
 	if a.w.Cfg.AppReject {
 		return quickfix.NewBusinessMessageRejectError("no", 4, nil)
 	}
@@ -266,6 +270,7 @@ type World struct {
 	DeadS       time.Duration // virtual deadline of the heartbeat timer
 	DeadP       time.Duration // virtual deadline of the peer timer
 	Restarts    int
+	Delivered   []string // ClOrdID (11) of every application message handed to FromApp, in order
 }
 
 const (
@@ -303,13 +308,17 @@ func (w *World) Restart() error {
 
 func (w *World) boot(first bool) error {
 	cfg := w.Cfg
-	id := quickfix.SessionID{BeginString: cfg.BeginString, SenderCompID: OurComp, TargetCompID: PeerComp,
+	our, peer := OurComp, PeerComp
+	if cfg.Flip {
+		our, peer = PeerComp, OurComp
+	}
+	id := quickfix.SessionID{BeginString: cfg.BeginString, SenderCompID: our, TargetCompID: peer,
 		SenderSubID: cfg.SenderSub, TargetSubID: cfg.TargetSub}
 	w.ID = id
 	ss := quickfix.NewSessionSettings()
 	ss.Set(config.BeginString, cfg.BeginString)
-	ss.Set(config.SenderCompID, OurComp)
-	ss.Set(config.TargetCompID, PeerComp)
+	ss.Set(config.SenderCompID, our)
+	ss.Set(config.TargetCompID, peer)
 	if cfg.SenderSub != "" {
 		ss.Set(config.SenderSubID, cfg.SenderSub)
 	}
@@ -369,8 +378,8 @@ func (w *World) boot(first bool) error {
 		gs.GlobalSettings().Set(config.FileStoreSync, "N")
 		ss2 := quickfix.NewSessionSettings()
 		ss2.Set(config.BeginString, cfg.BeginString)
-		ss2.Set(config.SenderCompID, OurComp)
-		ss2.Set(config.TargetCompID, PeerComp)
+		ss2.Set(config.SenderCompID, our)
+		ss2.Set(config.TargetCompID, peer)
 		if cfg.SenderSub != "" {
 			ss2.Set(config.SenderSubID, cfg.SenderSub)
 		}
